@@ -2,6 +2,7 @@ package rules
 
 import (
 	"go/token"
+	"go/types"
 	"strings"
 
 	"golang.org/x/tools/go/ssa"
@@ -14,10 +15,10 @@ func init() {
 		ID: "C22",
 		Explanation: "Decides structural necessary conditions of C22: (CACHE-KEY) every evaluation of module source is dominated by the miss edge of a lookup in the interpreter's module table with the very key under which the module is then installed (so a second import finds it and no second evaluation happens); (INSTALL-PAIR) the namespace is installed before its code runs (circular imports terminate), the namespace returned to the importer is the installed one (all importers share it), and on every path where execution fails the entry is deleted again with the same key (a failed module is not remembered); (RELATIVE-BASE) a relative spec is resolved against the directory of the importing file when the importing code comes from a file and against the working directory otherwise. Path resolution details and plugin modules are not decided.",
 		NotCovered:  "file-system path normalisation, plugin (.so) modules, concurrent imports (see C39)",
-		Rules:       []string{"CACHE-KEY", "INSTALL-PAIR", "RELATIVE-BASE"},
+		Rules:       []string{"CACHE-KEY", "INSTALL-PAIR", "RELATIVE-BASE", "KEY-IS-PATH: a module read from a file is looked up and installed under the path it is read from"},
 		Patterns:    []string{"./pkg/eval"},
 		Run:         runC22,
-		MinCounts:   map[string]int{"CACHE-KEY": 2, "INSTALL-PAIR": 3, "RELATIVE-BASE": 1},
+		MinCounts:   map[string]int{"CACHE-KEY": 2, "INSTALL-PAIR": 3, "RELATIVE-BASE": 1, "KEY-IS-PATH": 1},
 		Trusted:     trustedBase,
 		Controls: []core.Control{
 			{Name: "failed-module-stays-installed", Rule: "INSTALL-PAIR", File: "pkg/eval/builtin_special.go", Old: "\t\tfm.Evaler.deleteModule(key)\n\t\treturn nil, err", New: "\t\treturn nil, err", Fire: true, Quick: true},
@@ -198,6 +199,64 @@ func runC22(p *core.Program, r *core.Report) {
 				r.Bad("INSTALL-PAIR", construct, p.InsPos(del), "a failing path returns without deleting the module entry")
 			}
 		}
+	}
+
+	// KEY-IS-PATH: a module read from a file is cached under the path it was
+	// read from, whatever spec led to it (two routes to one file must meet
+	// in one cache entry)
+	readFile := p.Func(pkgEval, "readFileUTF8")
+	if r.Anchor("KEY-IS-PATH", "eval.readFileUTF8", readFile != nil) {
+		nk := 0
+		for _, fn := range p.FnsInPkg(pkgEval) {
+			var reads []ssa.Value
+			var evals []*ssa.Call
+			var lookups []*ssa.Call
+			core.Instrs(fn, func(ins ssa.Instruction) {
+				c, ok := ins.(*ssa.Call)
+				if !ok {
+					return
+				}
+				switch {
+				case c.Call.StaticCallee() == readFile:
+					if b, ok := c.Call.Args[0].(*ssa.BinOp); ok && b.Op == token.ADD {
+						reads = append(reads, b.X)
+					} else {
+						reads = append(reads, c.Call.Args[0])
+					}
+				case c.Call.StaticCallee() == evalModule:
+					evals = append(evals, c)
+				case isEvalerMethodCall(c, "getModule") != nil:
+					lookups = append(lookups, c)
+				}
+			})
+			if len(reads) == 0 || len(evals) == 0 {
+				continue
+			}
+			for _, ev := range evals {
+				nk++
+				construct := core.FnKey(fn) + " file module cached under the path it is read from"
+				okKey := false
+				for _, rd := range reads {
+					if sameVar(rd, ev.Call.Args[1]) {
+						okKey = true
+					}
+				}
+				okLookup := false
+				for _, lk := range lookups {
+					for _, rd := range reads {
+						if sameVar(rd, lk.Call.Args[1]) {
+							okLookup = true
+						}
+					}
+				}
+				if okKey && okLookup {
+					r.OK("KEY-IS-PATH", construct, p.InsPos(ev), "the cache key of both the lookup and the installation is the variable the file name is built from")
+				} else {
+					r.Bad("KEY-IS-PATH", construct, p.InsPos(ev), "a module file is looked up or installed under a key other than the path it is read from: the same file reached through two different specs (library spec and relative spec) is evaluated twice and its importers get different namespaces")
+				}
+			}
+		}
+		r.Anchor("KEY-IS-PATH", "function reading a module file and evaluating it", nk >= 1)
 	}
 
 	// RELATIVE-BASE
@@ -421,6 +480,38 @@ func runC16(p *core.Program, r *core.Report) {
 		r.OK("COMPILE-PURE", "eval.compile uses its namespace argument only to clone it", p.Pos(compile.Pos()), "every use of the parameter is g.clone(); the compiler mutates the clone")
 	} else {
 		r.Bad("COMPILE-PURE", "eval.compile uses its namespace argument only to clone it", p.Pos(compile.Pos()), "compile hands the caller's static namespace to the compiler without cloning it: a failed compilation (or a static check) leaves new variable slots behind in the caller's namespace")
+	}
+
+	// CLONE-FRESH: staticNs.clone returns storage that shares nothing with its receiver
+	clone := p.Method(pkgEval, "staticNs", "clone")
+	if r.Anchor("COMPILE-PURE", "(*eval.staticNs).clone", clone != nil) {
+		fe := &freshEngine{p: p, freshFn: map[*ssa.Function]bool{}}
+		okClone, n := true, 0
+		core.Instrs(clone, func(ins ssa.Instruction) {
+			st, ok := ins.(*ssa.Store)
+			if !ok {
+				return
+			}
+			fa, ok := st.Addr.(*ssa.FieldAddr)
+			if !ok {
+				return
+			}
+			if _, isAlloc := fa.X.(*ssa.Alloc); !isAlloc {
+				return
+			}
+			if _, isSlice := st.Val.Type().Underlying().(*types.Slice); !isSlice {
+				return
+			}
+			n++
+			if !fe.fresh(st.Val, map[ssa.Value]bool{}) {
+				okClone = false
+			}
+		})
+		if okClone && n >= 1 {
+			r.OK("COMPILE-PURE", "(*eval.staticNs).clone copies the variable table", p.Pos(clone.Pos()), "the slice stored in the clone is freshly allocated (append(nil, ...)/make+copy)")
+		} else {
+			r.Bad("COMPILE-PURE", "(*eval.staticNs).clone copies the variable table", p.Pos(clone.Pos()), "the clone shares the backing array of the namespace it was cloned from: in-place updates made while compiling (marking a shadowed or deleted variable) leak into the live namespace even when compilation fails or the code is only checked")
+		}
 	}
 
 	// CHECK-AGREE: arguments of every compile call
